@@ -14,7 +14,7 @@
 
 use std::cell::Cell;
 
-use crate::tracker::exec::BASE_EPOCH_S;
+use crate::tracker::exec::epoch_s;
 
 const MONO_BASE_S: u64 = 100_000;
 
@@ -50,7 +50,7 @@ impl Drop for Guard {
 pub unsafe extern "C" fn clock_gettime(clk: libc::clockid_t, ts: *mut libc::timespec) -> libc::c_int {
     let virt = V.try_with(Cell::get).ok().flatten();
     let ns: u128 = match (virt, clk) {
-        (Some((t, _)), libc::CLOCK_REALTIME | libc::CLOCK_REALTIME_COARSE | libc::CLOCK_TAI) => u128::from(BASE_EPOCH_S) * 1_000_000_000 + u128::from(t),
+        (Some((t, _)), libc::CLOCK_REALTIME | libc::CLOCK_REALTIME_COARSE | libc::CLOCK_TAI) => u128::from(epoch_s()) * 1_000_000_000 + u128::from(t),
         (Some((_, m)), libc::CLOCK_MONOTONIC | libc::CLOCK_MONOTONIC_RAW | libc::CLOCK_MONOTONIC_COARSE | libc::CLOCK_BOOTTIME) => u128::from(MONO_BASE_S) * 1_000_000_000 + u128::from(m),
         _ => return libc::syscall(libc::SYS_clock_gettime, clk, ts) as libc::c_int,
     };
